@@ -65,6 +65,10 @@ def run(ctx):
     g = Gen(ctx.rng, PROFILE, (6, 26))
     n = 300 if ctx.quick() else 5000
     extra = with_epilogue([g.script() for _ in range(n)], ctx.rng)
+    # Disconnect with its quit signal already given on a client that never had a connection: the select between the quit branch
+    # and the free write lock is the runtime's choice (the model calls the op unsupported there, so only the monitors judge:
+    # no panic, no hang, closed afterwards); several fresh clients so that both branches are taken in every run
+    extra += [["init 636c6c 0 16384 2", "disconnect quit", "rs", "close", "call z1 ping", "rs"] for _ in range(24 if ctx.quick() else 200)]
     v, stats, hist, samples, nd = SC.run_property(ctx, MODULE, PROFILE, 0, 0, [mon], keep, length=(6, 26), extra=extra)
     return SC.finish(ctx, v, stats, hist, samples, nd,
                      "Close/Disconnect issued in every client state the harness can hold a goroutine in: never connected, blocked in the "
